@@ -1526,6 +1526,52 @@ def single_exit_form(fn_node: ast.FunctionDef) -> bool:
     return True
 
 
+def propagate_module_constants(prog: Program) -> List[str]:
+    """``_LCB_NU = 0.2`` at module level (private upper-case name, one literal definition in the package, never re-bound):
+    its uses read the literal.  A maintainer's named constant must not hide the number from the term rules."""
+    import re as _re
+
+    defs: Dict[str, list] = {}
+    stores: Dict[str, int] = {}
+    for m in prog.modules.values():
+        for n in ast.walk(m.tree):
+            if isinstance(n, ast.Name) and not isinstance(n.ctx, ast.Load):
+                stores[n.id] = stores.get(n.id, 0) + 1
+            elif isinstance(n, ast.Global):
+                for nm in n.names:
+                    stores[nm] = stores.get(nm, 0) + 2
+        for st in m.tree.body:
+            if isinstance(st, ast.Assign) and len(st.targets) == 1 and isinstance(st.targets[0], ast.Name) and _re.fullmatch(r"_[A-Z][A-Z0-9_]*", st.targets[0].id):
+                v = st.value
+                if isinstance(v, ast.UnaryOp) and isinstance(v.op, ast.USub) and isinstance(v.operand, ast.Constant) and isinstance(v.operand.value, (int, float)):
+                    defs.setdefault(st.targets[0].id, []).append((m, st, v))
+                elif isinstance(v, ast.Constant) and isinstance(v.value, (int, float, str, bool)):
+                    defs.setdefault(st.targets[0].id, []).append((m, st, v))
+    out = []
+    for name, ds in defs.items():
+        if len(ds) != 1 or stores.get(name) != 1:
+            continue
+        m0, st0, v0 = ds[0]
+        n_repl = 0
+        for m in prog.modules.values():
+            visible = m is m0 or any(isinstance(x, ast.ImportFrom) and any(a.name == name and a.asname in (None, name) for a in x.names) for x in ast.walk(m.tree))
+            if not visible:
+                continue
+
+            class Rp(ast.NodeTransformer):
+                def visit_Name(self, node):
+                    nonlocal n_repl
+                    if node.id == name and isinstance(node.ctx, ast.Load):
+                        n_repl += 1
+                        return ast.copy_location(copy.deepcopy(v0), node)
+                    return node
+
+            Rp().visit(m.tree)
+        if n_repl:
+            out.append(f"{m0.name}:{name} (constant {ast.unparse(v0)} propagated to {n_repl} use(s))")
+    return out
+
+
 def _noneness(e) -> Optional[bool]:
     """True = certainly None, False = certainly not None, None = unknown."""
     if isinstance(e, ast.Constant):
@@ -1619,6 +1665,13 @@ def normalise(prog: Program) -> Tuple[Program, List[str]]:
     log: List[str] = []
     if os.environ.get("PBSTATIC_NO_INLINE"):
         return prog, log
+    pc = propagate_module_constants(prog)
+    if pc:
+        log += pc
+        for m in prog.modules.values():
+            ast.fix_missing_locations(m.tree)
+        trees = {m.relpath: m.tree for m in prog.modules.values()}
+        prog = Program(prog.root, override_trees=trees)
     for _round in range(MAX_ROUNDS):
         plan = _candidates(prog)
         if not plan:
